@@ -306,6 +306,8 @@ def load(repo=None, rebuild=False, quiet=False):
         n = '<%s as CKBProtocolHandler>::received::{closure#0}' % h
         if not prog.has(n):
             raise FactsError('ANCHOR-MISSING: handler body %s' % n)
+    from . import normalise
+    normalise.apply(prog)
     if not os.environ.get('VERIF_NO_ALIASES'):
         from . import aliases
         prog.aliases = aliases.apply(prog)
